@@ -530,3 +530,74 @@ Section Results.
     repeat match goal with |- context [flag ?b ?f] => destruct (flag b f) eqn:? end; cbn; repeat split; reflexivity.
   Qed.
 End Results.
+
+(* ---------- corollaries on whole runs ---------- *)
+Section Runs.
+  Variable W : Type.
+  Variable os : hcall -> W -> hres * W.
+  Variable heap : N -> bool.
+  Variable present : hid -> bool.
+  Variable T : topo.
+  Notation RUN := (run W os heap present T).
+
+  Lemma run_trace (Q : hcall -> Prop) a w :
+    (forall c, In c (calls_of T a) -> Q c) -> Forall Q (s_trace (snd (RUN a w))).
+  Proof.
+    intros H. unfold run. apply (pres_run_api W os heap present T Q a); [|constructor].
+    intros c Hc _. now apply H.
+  Qed.
+
+  Lemma run_only_legal a w c : In c (s_trace (snd (RUN a w))) -> legal_call T c = true.
+  Proof.
+    intros Hc. pose proof (run_trace (fun c => legal_call T c = true) a w (fun c => calls_legal T a c)) as H.
+    rewrite Forall_forall in H. now apply H.
+  Qed.
+  Lemma run_invalid_no_binding a w c : invalid T a = true -> In c (s_trace (snd (RUN a w))) -> is_binding_call c = false.
+  Proof.
+    intros Hi Hc. pose proof (run_trace (fun c => is_binding_call c = false) a w (fun c => calls_invalid_no_binding T a c Hi)) as H.
+    rewrite Forall_forall in H. now apply H.
+  Qed.
+  Lemma run_full_complete a w c x :
+    covers_topology T a = true -> In c (s_trace (snd (RUN a w))) -> hc_set c = Some x -> x = complete_of T (hid_kind (hc_id c)).
+  Proof.
+    intros Hcv Hc. pose proof (run_trace (fun c => forall x, hc_set c = Some x -> x = complete_of T (hid_kind (hc_id c))) a w
+                                 (fun c Hin x => calls_full_complete T a c x Hcv Hin)) as H.
+    rewrite Forall_forall in H. now apply H.
+  Qed.
+End Runs.
+
+(* ---------- hwloc_backends_is_thissystem ---------- *)
+Lemma foreign_backend_not_thissystem backends :
+  (exists b, In b backends /\ bk_is_thissystem b <> (-1)%Z) -> backends_is_thissystem backends false None = false.
+Proof.
+  intros [b [Hin Hb]]. unfold backends_is_thissystem.
+  destruct (existsb (fun b => bk_envvar_forced b && negb (bk_is_thissystem b =? -1)%Z) backends) eqn:E2; [reflexivity|].
+  destruct (existsb (fun b => negb (bk_envvar_forced b) && negb (bk_is_thissystem b =? -1)%Z) backends) eqn:E1; [reflexivity|].
+  exfalso. rewrite <- not_true_iff_false in E1, E2. rewrite existsb_exists in E1, E2.
+  assert (Hn : negb (bk_is_thissystem b =? -1)%Z = true) by (apply negb_true_iff; apply Z.eqb_neq; exact Hb).
+  destruct (bk_envvar_forced b) eqn:F; [apply E2|apply E1]; exists b; rewrite F, Hn; auto.
+Qed.
+Lemma flag_makes_thissystem backends :
+  (forall b, In b backends -> bk_envvar_forced b = false) -> backends_is_thissystem backends true None = true.
+Proof.
+  intros H. unfold backends_is_thissystem.
+  destruct (existsb (fun b => bk_envvar_forced b && negb (bk_is_thissystem b =? -1)%Z) backends) eqn:E2; [|now destruct (existsb _ backends)].
+  apply existsb_exists in E2 as [b [Hin Hb]]. rewrite (H b Hin) in Hb. discriminate.
+Qed.
+Lemma env_overrides_thissystem backends fl v : backends_is_thissystem backends fl (Some v) = negb (v =? 0)%Z.
+Proof. reflexivity. Qed.
+
+(* ---------- x86 look_procs against the idealised affinity model ---------- *)
+Lemma bs_inter_subset a b : bs_subset a b = true -> bs_inter a b = a.
+Proof.
+  intros H. apply bs_ext. intros i. rewrite mem_inter. rewrite bs_subset_spec in H.
+  destruct (mem i a) eqn:E; [now rewrite (H i E)|reflexivity].
+Qed.
+Lemma x86_restores allowed restrict_set nbprocs cur :
+  bs_subset cur allowed = true -> bs_is_empty cur = false ->
+  fst (x86_look_procs allowed restrict_set nbprocs cur) = cur.
+Proof.
+  intros Hs He. unfold x86_look_procs.
+  destruct (x86_bind_loop allowed restrict_set (map N.of_nat (seq 0 nbprocs)) cur []) as [cur1 visited].
+  cbn [fst snd]. unfold ideal_set. rewrite (bs_inter_subset cur allowed Hs), He. reflexivity.
+Qed.
